@@ -54,6 +54,9 @@ def cases(tier, seed):
         c = dict(kind=kind, L=L, chains=chains, seed=int(rng.integers(1 << 31)))
         if nmk[0] % 7 == 0:
             c['oid_identity'] = (5, 9, -1)[(nmk[0] // 7) % 3]
+        elif nmk[0] % 11 == 0:
+            # operator ids are arbitrary integers: negative ones, among them -1 and -2 (equal hash values in CPython)
+            c['oid_relabel'] = [[1, -1], [2, -2]] if (nmk[0] // 11) % 2 else [[1, -2], [3, -1], [2, 2 ** 40]]
         return c
 
     for L in range(1, Lmax + 1):
@@ -208,6 +211,9 @@ def run_case(c):
     if oid_id != OID_ID:
         sw = {OID_ID: oid_id, oid_id: OID_ID}
         chains_d = [[[sw.get(int(o), int(o)) for o in ch[0]]] + list(ch[1:]) for ch in chains_d]
+    if c.get('oid_relabel'):
+        rl = {int(a): int(b) for a, b in c['oid_relabel']}
+        chains_d = [[[rl.get(int(o), int(o)) for o in ch[0]]] + list(ch[1:]) for ch in chains_d]
     key = json.dumps([L, chains_d, oid_id])
     nontrivial = not (len(chains_d) == 1 and all(o == oid_id for o in chains_d[0][0]))
     assert any(ch[2] != 0 for ch in chains_d)          # generator invariant: precondition of the property
